@@ -421,6 +421,14 @@ def r4_guards(r, facts):
                      (e[1] == 'Le' and b_skip and tgt == t_false) or (e[1] == 'Gt' and b_skip and tgt == t_true)
                 if ok:
                     guard = (b, e)
+        # `match size.checked_sub(self.skip) { Some(rest) => ptr.add(skip) .. }`: the Some edge implies skip <= size
+        # (an offset of exactly `size` is the one-past-the-end pointer, still inside the allocation)
+        for si in f.enum_switches('std::option::Option'):
+            ce = eb.local(si['place']['l']) if not si['place']['p'] else None
+            if ce is not None and ce[0] == 'call' and ce[1].endswith('checked_sub') and fam.last_field(ce[2][1]) == 'skip' and fam.last_field(ce[2][0]) != 'skip':
+                se = f.variant_edge(si, 'Some')
+                if se is not None and f.edge_dominates(se, al):
+                    guard = (si['bb'], ce)
         r.inst('SkipBuf::parts: ptr.add(skip) guarded by %s' % (guard[1] if guard else None,), f.where(al))
         r.require(guard is not None, 'SkipBuf::parts/guard', 'ptr.add(skip) is not dominated by an edge implying skip < size (pointer past the buffer)', f.where(al))
         off = eb.operand(at['args'][1])
@@ -435,6 +443,9 @@ def r4_guards(r, facts):
                     if ln[0] == 'proj' and ln[2] == ('.0',):
                         ln = ln[1]
                     okl = ln[0] == 'bin' and ln[1].startswith('Sub') and fam.last_field(ln[3]) == 'skip'
+                    # or the payload of `size.checked_sub(self.skip)`
+                    if ln[0] == 'proj' and tuple(ln[2]) == ('@Some', '.0') and ln[1][0] == 'call' and ln[1][1].endswith('checked_sub') and fam.last_field(ln[1][2][1]) == 'skip':
+                        okl = True
         r.require(okl, 'SkipBuf::parts/length', 'the remaining length is not size - skip', f.where(al))
     # LimitedBuf::as_iovecs[_mut]: set_len(left) only under len > left
     for trait, meth in (('io::traits::BufSlice', 'as_iovecs'), ('io::traits::BufMutSlice', 'as_iovecs_mut')):
@@ -473,6 +484,37 @@ def r4_guards(r, facts):
                        (e[1] == 'Lt' and la and tgt == t_true) or (e[1] == 'Ge' and la and tgt == t_false):
                         ok = True
             arg = eg.operand(t['args'][1])
+            # the new length may travel in an Option built in this function (`Some(left)` read back as `x@Some.0`)
+            seen_l = set()
+            while arg[0] == 'proj' and tuple(arg[2]) == ('@Some', '.0') and arg[1][0] == 'local' and arg[1][1] not in seen_l:
+                seen_l.add(arg[1][1])
+                somes = [d for d in g.defs.get(arg[1][1], []) if not g.blocks[d[0][0]]['cleanup'] and d[1] == 'assign' and d[2]['k'] == 'agg' and d[2].get('variant') == 'Some']
+                rest = [d for d in g.defs.get(arg[1][1], []) if not g.blocks[d[0][0]]['cleanup'] and d not in somes]
+                if len(somes) == 1 and all(d[1] == 'assign' and d[2]['k'] == 'agg' and d[2].get('variant') == 'None' for d in rest):
+                    arg = eg.operand(somes[0][2]['ops'][0])
+                else:
+                    break
+            # by paths: within one iteration the resize is only reached over an edge that implies len > left
+            if not ok:
+                nexts0 = [(l2, t2) for l2, t2 in g.calls() if (t2.get('callee') or '') == 'std::iter::Iterator::next']
+                gts = []
+                for b, blk in enumerate(g.blocks):
+                    tt = blk['term']
+                    if blk['cleanup'] or tt['k'] != 'switch':
+                        continue
+                    e = eg.operand(tt['discr'])
+                    if e[0] == 'bin' and e[1] in ('Le', 'Gt', 'Lt', 'Ge'):
+                        vals = {int(v): tg for v, tg in tt['targets']}
+                        t_true, t_false = vals.get(1, tt['otherwise']), vals.get(0)
+                        la, lb = _is_left(e[2]), _is_left(e[3])
+                        other = e[3] if la else e[2]
+                        if (la != lb) and any(x[0] == 'call' and x[1].endswith('::len') for x in subexprs(other)):
+                            gt = t_false if (e[1], lb) in (('Le', True), ('Ge', False)) else (t_true if (e[1], lb) in (('Gt', True), ('Lt', False)) else None)
+                            if gt is not None and len([p_ for p_ in g.pred[gt] if not g.blocks[p_]['cleanup']]) == 1:
+                                gts.append(Loc(gt, 0))
+                if gts and nexts0 and all(t2.get('target') is not None for l2, t2 in nexts0):
+                    hit = g.forward_paths_hit([Loc(t2['target'], 0) for l2, t2 in nexts0], [loc], blockers=gts + [l2 for l2, t2 in nexts0])
+                    ok = hit is None
             # the limit is applied on every path: no return between taking the inner iovecs and the truncation
             # loop, unless that exit is guarded by a comparison with the total length of the inner buffers
             inner = [(l2, t2) for l2, t2 in g.calls() if (t2.get('callee') or '') in ('io::traits::BufSlice::as_iovecs', 'io::traits::BufMutSlice::as_iovecs_mut')]
